@@ -576,6 +576,11 @@ def str_method(I, s: Any, name: str, pos: list, kw: dict, st: State) -> Iterator
             else:
                 yield s2, Raised(SExc("ValueError", note="substring not found"))
         return
+    if name == "count" and len(pos) == 1 and is_strish(pos[0]):
+        c = V.str_count(z, zstr(pos[0]))
+        st.pc.append(z3.And(c >= 0, c <= z3.Length(z), (c == 0) == z3.Not(z3.Contains(z, zstr(pos[0])))))
+        yield st, c
+        return
     if name in ("find", "index", "rfind", "rindex", "count"):
         yield st, fresh(f"str.{name}", z3.IntSort())
         return
